@@ -332,7 +332,7 @@ PROPS = {
     "C06": {
         "modules": ["Sheens.Props.C06", "Sheens.Props.C06Own"],
         "theorems": [],
-        "facts": ["engine_writes_only_locals", "engine_mutators_on_fresh_maps", "step_returns_copies", "step_copy_sites", "match_copies_first", "copyBindingss_copies", "bindings_deep_copied", "core_no_hidden_state", "match_no_hidden_state"],
+        "facts": ["engine_writes_only_locals", "engine_mutators_on_fresh_maps", "step_returns_copies", "step_copy_sites", "walk_copy_sites", "match_copies_first", "copyBindingss_copies", "bindings_deep_copied", "core_no_hidden_state", "match_no_hidden_state"],
         "runs": {
             "quick": [("walk", ["-profile", "failing", "-n", "7000"]), ("step", ["-profile", "failing", "-n", "6000"])],
             "thorough": [("walk", ["-profile", "failing", "-n", "40000"]), ("step", ["-profile", "failing", "-n", "40000"]),
